@@ -81,6 +81,7 @@ def shape_axioms(ctx):
                                                            unravel_idx(ravel_idx(i, s), s) == i))),
         z3.ForAll([s, i], z3.Implies(inshape(i, ravel_shape(s)), z3.And(inshape(unravel_idx(i, s), s),
                                                                         ravel_idx(unravel_idx(i, s), s) == i))),
+        z3.ForAll([s], z3.And(sconcat(s, shp0) == s, sconcat(shp0, s) == s)),
         # broadcasting against a 0-d operand
         z3.ForAll([s], z3.And(bok(s, shp0), bshape(s, shp0) == s)),
         z3.ForAll([s, i], z3.Implies(inshape(i, s), proj(i, s, shp0) == the_idx(shp0))),
@@ -330,6 +331,28 @@ class Arr:
 
     def sx_truth(self, ex):
         raise U("truth value of an array")
+
+
+class OuterProduct:
+    """numpy.outer(a, b): the (a.size, b.size) matrix of all products.  Only its reshape to a.shape + b.shape for a
+    0-d `b` is modelled: element i is a[i] * b[()]."""
+
+    def __init__(self, a, b):
+        self.a, self.b = a, b
+
+    def sx_getattr(self, ex, attr, node):
+        return V.BoundMethod(self, attr)
+
+    def sx_method(self, ex, attr, args, kw, node):
+        if attr == "reshape" and len(args) == 1 and isinstance(args[0], ShapeV) and not kw:
+            a, b = self.a, self.b
+            site = ex.site("outer_reshape")
+            ex.oblige(f"pre({site}).second_operand_0d", ndim(b.shape) == 0, "precondition", node,
+                      note="only scalar (0-d) evaluation points are within the proof; array arguments: bounded check")
+            ex.oblige(f"pre({site}).target_shape", args[0].term == sconcat(a.shape, b.shape), "precondition", node)
+            fa, fb = _freeze(a), _freeze(b)
+            return Arr(args[0].term, lambda i: _num(fa(i)) * _num(fb(the_idx(b.shape))), "real", ex.ctx.const("dt_result", DT))
+        raise U(f"outer product .{attr}", node)
 
 
 class FlagsV:
@@ -776,7 +799,7 @@ class Poly:
         if attr in ("dtype", "_dtype"):
             return DTypeV(self.dtype)
         if attr == "names":
-            return NamesV(self.names)
+            return NamesV(self.names, getattr(self, "concrete_names", None))
         if attr == "size":
             return size(self.shape)
         if attr == "ndim":
@@ -792,6 +815,12 @@ class Poly:
         if attr == "flags":
             return {"OWNDATA": self.owndata}
         return V.BoundMethod(self, attr)
+
+    def sx_iter(self, ex):
+        src = getattr(self, "indeterminants_of", None)
+        if src is not None and getattr(src, "concrete_names", None) is not None:
+            return [IndetElem(src, d) for d in range(len(src.concrete_names))]
+        return None
 
     OPERATORS = {"Add": "add", "Sub": "subtract", "Mult": "multiply", "Pow": "power"}
 
@@ -831,9 +860,31 @@ class Poly:
         raise U(f"ndpoly.{attr}", node)
 
 
+class IndetElem:
+    """element d of poly.indeterminants: the 0-d polynomial x_d"""
+
+    def __init__(self, poly, d):
+        self.poly, self.d = poly, d
+
+    def sx_isinstance(self, ex, name):
+        return name in ("numpoly.ndpoly", "numpy.ndarray")
+
+    def sx_getattr(self, ex, attr, node):
+        if attr == "shape":
+            return ShapeV(shp0)
+        raise U(f"attribute {attr} of an indeterminate element", node)
+
+
 class NamesV:
-    def __init__(self, term):
+    def __init__(self, term, concrete=None):
         self.term = term
+        self.concrete = concrete          # python strings when the tuple is known concretely (enumerated cases)
+
+    def sx_contains(self, ex, item, node):
+        if self.concrete is not None and isinstance(item, str):
+            return item in self.concrete
+        x = as_name(ex, item, node)
+        return z3.Not(ex.ctx.forall_range(0, nlen(self.term), lambda d: nat(self.term, d) != x))
 
     def sx_tuple(self, ex, node):
         return self
@@ -895,7 +946,7 @@ class NamesV:
         return V.Seq(nlen(self.term), lambda d: nat(self.term, d), "tuple")
 
     def sx_iter(self, ex):
-        return None
+        return list(self.concrete) if self.concrete is not None else None
 
     def sx_truth(self, ex):
         return nlen(self.term) > 0
@@ -1039,6 +1090,8 @@ def install(reg):
         @ax(f"numpy.{name}")
         def _c(ex, args, kw, node):
             shp = args[0]
+            if isinstance(shp, tuple) and not shp:
+                shp = ShapeV(shp0)
             if not isinstance(shp, ShapeV):
                 raise U(f"numpy.{name} with non-symbolic shape", node)
             dt = kw.get("dtype", args[1] if len(args) > 1 else None)
@@ -1088,6 +1141,13 @@ def install(reg):
             nz = (a.elem(i) != 0) if a.kind != "bool" else a.elem(i)
             return z3.Exists([i], z3.And(inshape(i, a.shape), nz))
         raise U("numpy.any of this value", node)
+
+    @ax("numpy.outer")
+    def outer(ex, args, kw, node):
+        a, b = args
+        if isinstance(a, Arr) and isinstance(b, Arr) and not kw:
+            return OuterProduct(a, b)
+        raise U("numpy.outer of these values", node)
 
     @ax("numpy.allclose")
     def allclose(ex, args, kw, node):
